@@ -49,7 +49,11 @@ def as_scalar(c):
 
 
 def dense_payload(node):
-    """Dense/Generic payload of shape node['shape'] by node['gen'] (default small integers)."""
+    """Dense/Generic payload of shape node['shape'] by node['gen'] (default small integers); node['unit'] expresses the
+    entries in another unit (tiny / huge entries that are still inside the dtype's range)."""
+    if "unit" in node:
+        a = dense_payload({k: v for k, v in node.items() if k != "unit"})
+        return (a * node["unit"]).astype(a.dtype)
     m, n = node["shape"]
     dt = node["dt"]
     g = node.get("gen", "int")
